@@ -96,8 +96,10 @@ def check_case(case):
             viol(OB_RESOLVES, "raised: " + lm.split(":")[0] + " in BoolCFGLM.__init__", None, lm, "a language model")
             return out
         nontrivial = False
+        wants = {}
         for c in cs:
             want = {t for t in ge.V if bool(cfgspec.prefix_weight(BOOL, gb, c + (t,))[0])}
+            wants[c] = want
             st, p = call(lm.p_next, c)
             out["n"] += 1
             if st != "ok":
@@ -119,6 +121,18 @@ def check_case(case):
                 if (EOS in got) != complete:
                     viol(OB_EOS, "wrong-eos", c, EOS in got, complete)
             nontrivial = nontrivial or bool(want)
+        # second pass on the SAME model object, longest contexts first: by now every context has been extended by every token,
+        # viable or not, so the parser's cached columns have seen non-viable tokens; the mask must not depend on that history
+        # (strengthened after seeded change C01-3)
+        for c in sorted(wants, key=lambda c: (-len(c), repr(c))):
+            st, p = call(lm.p_next, c)
+            out["n"] += 1
+            if st != "ok":
+                viol(OB_MASK, "raised on re-query: " + p.split(":")[0], c, p, sorted(wants[c]))
+                break
+            got = {t for t, v in p.items() if v != 0}
+            if got != wants[c]:
+                viol(OB_MASK, "wrong-mask on re-query: " + ("offers non-viable" if got - wants[c] else "omits viable"), c, sorted(got), sorted(wants[c]))
         if nontrivial:
             out["keys"].append(sig(case["name"], sr, alg, case["rename"], case["heap"]))
         if case["name"] in ("palindrome", "unary_cycle") and case["rename"] == "id":
